@@ -51,6 +51,24 @@ func newTokenizer(kind string) tokzr {
 		return ctok.NewExpressionTokenizer()
 	case kind == "m":
 		return mtok.NewMustacheTokenizer()
+	case kind == "h" || kind == "H":
+		// a user number state plugged in through the public extension points: 0x… literals come out with the public
+		// HexDecimal token type, everything else is left to the stock number state (h generic, H expression tokenizer)
+		var t interface {
+			tokzr
+			SetNumberState(tokenizers.INumberState)
+			NumberState() tokenizers.INumberState
+			SetCharacterState(rune, rune, tokenizers.ITokenizerState)
+		}
+		if kind == "h" {
+			t = generic.NewGenericTokenizer()
+		} else {
+			t = ctok.NewExpressionTokenizer()
+		}
+		hs := &hexNumberState{inner: t.NumberState()}
+		t.SetNumberState(hs)
+		t.SetCharacterState('0', '9', hs)
+		return t
 	case strings.HasPrefix(kind, "C:"), strings.HasPrefix(kind, "D:"):
 		// the same configuration reached through another history of setter calls
 		p := strings.Split(kind, ":")
@@ -74,6 +92,29 @@ func newTokenizer(kind string) tokzr {
 		return t
 	}
 	panic("bad kind " + kind)
+}
+
+type hexNumberState struct{ inner tokenizers.INumberState }
+
+func (h *hexNumberState) NextToken(scanner rio.IScanner, tokenizer tokenizers.ITokenizer) *tokenizers.Token {
+	if scanner.Peek() == '0' {
+		line, col := scanner.PeekLine(), scanner.PeekColumn()
+		scanner.Read()
+		if x := scanner.Peek(); x == 'x' || x == 'X' {
+			scanner.Read()
+			val := []rune{'0', x}
+			isHex := func(r rune) bool { return r >= '0' && r <= '9' || r >= 'a' && r <= 'f' || r >= 'A' && r <= 'F' }
+			for isHex(scanner.Peek()) {
+				val = append(val, scanner.Read())
+			}
+			if len(val) > 2 {
+				return tokenizers.NewToken(tokenizers.HexDecimal, string(val), line, col)
+			}
+			scanner.Unread()
+		}
+		scanner.Unread()
+	}
+	return h.inner.NextToken(scanner, tokenizer)
 }
 
 func setOpts(t tokenizers.ITokenizer, o int) {
@@ -162,21 +203,35 @@ func oracleLossless(input []rune, ts []tk) string {
 
 // positions of the raw (all-off) stream: start offsets + C12 check
 func oraclePositions(input []rune, ts []tk, starts []int) string {
-	cs := string(input)
+	// one forward scan: (line, column) after k reads, k = 0 .. len+1
+	n := len(input)
+	ls, cs := make([]int, n+2), make([]int, n+2)
+	sc := rio.NewStringScanner(string(input))
+	for k := 0; k <= n+1; k++ {
+		ls[k], cs[k] = sc.Line(), sc.Column()
+		sc.Read()
+	}
 	for i, t := range ts {
 		if t.Typ == tokenizers.Eof {
-			l, c := freshLC(cs, len(input))
+			l, c := ls[n], cs[n]
 			if t.Line != l || t.Col != c+1 {
 				return fmt.Sprintf("Eof token reports %d:%d, one column past the last character is %d:%d", t.Line, t.Col, l, c+1)
 			}
 			continue
 		}
-		l, c := freshLC(cs, starts[i]+1)
+		l, c := ls[starts[i]+1], cs[starts[i]+1]
 		if t.Line != l || t.Col != c {
-			return fmt.Sprintf("token #%d (%q, starts at offset %d) reports %d:%d, its first character is at %d:%d", i, string(t.Val), starts[i], t.Line, t.Col, l, c)
+			return fmt.Sprintf("token #%d (%q, starts at offset %d) reports %d:%d, its first character is at %d:%d", i, clip(string(t.Val)), starts[i], t.Line, t.Col, l, c)
 		}
 	}
 	return ""
+}
+
+func clip(s string) string {
+	if len(s) > 60 {
+		return s[:60] + "…"
+	}
+	return s
 }
 
 // postOracle: what the option set `o` must turn the raw stream into (C15), computed from the
@@ -271,6 +326,11 @@ var classAlphabet = []rune{'a', '1', '.', '-', '/', '*', 'e', '+', '"', '\'', '<
 
 var tokKinds = []string{"g", "e", "m", "c:44:34"}
 
+// runes with a special role somewhere: ends of planes and of the UTF-8 lengths, non-characters, the replacement character,
+// Unicode spaces and line separators, case-folding oddities
+var specialRunes = []rune{0xffff, 0xfffe, 0x10000, 0xd7ff, 0xe000, 0x131, 0x17f, 0, 0x7f, 0xa0, 0xfeff, 0x100, 0xff, 0x212a, 0x2028,
+	0xfffd, 0x85, 0x3000, 0x1680, 0x10ffff, 0x0b, 0x0c, 0x2029, 0x202f}
+
 func randInput(c *Ctx, maxLen int) []rune {
 	n := c.Rng.Intn(maxLen + 1)
 	out := make([]rune, n)
@@ -279,7 +339,7 @@ func randInput(c *Ctx, maxLen int) []rune {
 		case 0:
 			out[i] = rune(c.Rng.Intn(0x250))
 		case 1:
-			out[i] = []rune{0xffff, 0xfffe, 0x10000, 0xd7ff, 0xe000, 0x131, 0x17f, 0, 0x7f, 0xa0, 0xfeff, 0x100, 0xff, 0x212a, 0x2028}[c.Rng.Intn(15)]
+			out[i] = specialRunes[c.Rng.Intn(len(specialRunes))]
 		default:
 			out[i] = classAlphabet[c.Rng.Intn(len(classAlphabet))]
 		}
